@@ -158,13 +158,14 @@ theorem type_params_dropped_witness :
 /-! ### statement layer -/
 
 /-- The module bodies on which faithful regeneration of *statements* is proved: expression
-    statements, (augmented) assignments, `return`, `pass`, `break`, `continue`, `assert`, `raise`,
-    `if`/`while`/`for` with `else`, `with`, `try`/`except`/`else`/`finally`, decorated `def` and `class`,
-    nested to any depth, all embedded expressions `Supported`.  Not included (the gap of the
-    `_partial` theorem): `del`, `import`, `from … import`, annotated parameters; and — outside
-    the property, because the regenerated text is not Python and is rejected — `global` and
-    `except E as name` (see `global_rejected`, `handler_name_rejected`), PEP 695 type parameters
-    (known finding). -/
+    statements, (augmented) assignments, `del`, `return`, `pass`, `break`, `continue`, `assert`,
+    `raise`, `import`, `from m import`, `if`/`while`/`for` with `else`, `with`,
+    `try`/`except`/`else`/`finally`, decorated `def` and `class`, nested to any depth, all embedded
+    expressions `Supported`.  Not included (the gap of the `_partial` theorem): parameter and
+    return annotations are limited to `-> ret` (annotated *parameters* are not covered); and —
+    outside the property, because the regenerated text is not Python and is rejected — `global`,
+    `except E as name`, `from . import x` (see `global_rejected`, `handler_name_rejected`), PEP 695
+    type parameters (known finding). -/
 def SupportedS (ss : List PyStmt) : Prop := WFSL ss ∧ noHandlers ss = true
 
 /-- **Faithful regeneration (statements), partial.**  For every supported module body — any
@@ -172,8 +173,8 @@ def SupportedS (ss : List PyStmt) : Prop := WFSL ss ∧ noHandlers ss = true
     writes (indentation + tokens) with the statement reader `pyParseS` gives back exactly the
     statements it was given: no statement, clause, block boundary, decorator, parameter, base class,
     target or embedded expression is lost, moved to another block or changed.
-    Gap: `del` / `import` statements and parameter annotations are not covered by the proof (they
-    are covered by the correspondence and the oracle only). -/
+    Gap: annotated parameters (`def f(a: int)`) are not covered by the proof (they are covered by
+    the correspondence and the oracle only). -/
 theorem parseS_genS_partial (ss : List PyStmt) (h : SupportedS ss) :
     ∃ lines, genModule ss = some lines ∧ pyParseS lines = some ss :=
   ⟨genBody 0 ss, by simp [genModule, wfsl_genOk ss h.1], parseS_genBody ss h.1 h.2⟩
@@ -211,6 +212,9 @@ theorem handler_name_rejected :
             x = y = 2
             x += 2
             while x: x
+    import os.path as p, sys
+    from a.b import c as d, e
+    del x, y[2]
     ``` -/
 def exModule : List PyStmt :=
   [ .functionDef ['f'] [.param ['p'] none none] [.param ['q'] none (some two)] (some (.param ['r'] none none))
@@ -226,10 +230,20 @@ def exModule : List PyStmt :=
           [ .assign [.name ['x'], .name ['y']] two,
             .augAssign (.name ['x']) cs!"Add" two,
             .while_ (.name ['x']) [.expr (.name ['x'])] [] ] ]
-      [] false ]
+      [] false,
+    .import_ [(cs!"os.path", some ['p']), (cs!"sys", none)],
+    .importFrom (some cs!"a.b") [(['c'], some ['d']), (['e'], none)] 0,
+    .delete [.name ['x'], .subscript (.name ['y']) two] ]
 
 theorem sup_name (s : Str) : Supported (.name s) ↔ isKeyword s = false :=
   ⟨fun h => h.1, fun h => ⟨h, rfl⟩⟩
+
+theorem dotted2 (a b : Str) (ha : a ≠ [] ∧ '.' ∉ a ∧ isKeyword a = false) (hb : b ≠ [] ∧ '.' ∉ b ∧ isKeyword b = false) :
+    DottedOK (a ++ '.' :: b) :=
+  ⟨[a, b], by simp, rfl, by intro c hc; simp at hc; rcases hc with rfl | rfl <;> assumption⟩
+
+theorem dotted1 (a : Str) (ha : a ≠ [] ∧ '.' ∉ a ∧ isKeyword a = false) : DottedOK a :=
+  ⟨[a], by simp, rfl, by intro c hc; simp at hc; subst hc; exact ha⟩
 
 theorem exModule_supported : SupportedS exModule := by
   have h2 : Supported two := ⟨two_ok, rfl⟩
@@ -238,20 +252,41 @@ theorem exModule_supported : SupportedS exModule := by
     simp only [exUnaryPow, two, WF]
     exact ⟨by decide, ⟨by decide, two_ok, rfl⟩, two_ok, rfl, rfl⟩
   refine ⟨?_, rfl⟩
-  simp only [exModule, WFSL, WFS, ParamsOK, WFL, WFO, WF, SupportedO, and_true, true_and]
-  refine ⟨⟨by decide, ?_, ?_, rfl, ?_, ?_⟩, ⟨by decide, ?_, rfl, ?_, rfl, ?_, rfl, ?_⟩⟩
-  all_goals first
-    | decide
-    | simp (config := { decide := true }) [sup_name, h2, hup, noHandlers, isHandler, IdentOK, exprO, isExpr,
-        isPlainParam, isVarParam, h2.1]
+  simp only [exModule, WFSL, and_true]
+  refine ⟨?_, ?_, ?_, ?_, ?_⟩
+  · simp only [WFS, WFSL, ParamsOK, WFL, WFO, WF, SupportedO, and_true, true_and]
+    refine ⟨by decide, ?_, ?_, rfl, ?_, ?_⟩
+    all_goals first
+      | decide
+      | simp (config := { decide := true }) [sup_name, h2, hup, h2.1]
+  · simp only [WFS, WFSL, WFL, WFO, WF, SupportedO, and_true, true_and]
+    refine ⟨by decide, ?_, rfl, ?_, rfl, ?_, rfl, ?_⟩
+    all_goals first
+      | decide
+      | simp (config := { decide := true }) [sup_name, h2, hup, h2.1]
+  · simp only [WFS]
+    refine ⟨by simp, ?_⟩
+    intro p hp
+    simp only [List.mem_cons, List.mem_nil_iff, or_false] at hp
+    rcases hp with rfl | rfl
+    · exact dotted2 cs!"os" cs!"path" (by decide) (by decide)
+    · exact dotted1 cs!"sys" (by decide)
+  · simp only [WFS]
+    exact ⟨⟨_, rfl, dotted2 ['a'] ['b'] (by decide) (by decide)⟩, by simp⟩
+  · simp only [WFS]
+    refine ⟨by simp, ?_⟩
+    intro t ht
+    simp only [List.mem_cons, List.mem_nil_iff, or_false] at ht
+    rcases ht with rfl | rfl
+    · exact (sup_name _).mpr (by decide)
+    · refine ⟨?_, rfl⟩
+      simp only [WF]
+      exact ⟨by decide, rfl, h2.1, Or.inl rfl⟩
 
 example : ∃ lines, genModule exModule = some lines ∧ pyParseS lines = some exModule :=
   parseS_genS_partial exModule exModule_supported
 
 example : pyParseS (genBody 0 exModule) = some exModule := rfl
-example : (genBody 0 exModule).length = 23 := rfl
-/-- not covered by the proof but read back all the same (correspondence / oracle territory) -/
-example : pyParseS (genBody 0 [.delete [.name ['a'], .name ['b']], .import_ [(cs!"os.path", some ['p'])]])
-    = some [.delete [.name ['a'], .name ['b']], .import_ [(cs!"os.path", some ['p'])]] := rfl
+example : (genBody 0 exModule).length = 26 := rfl
 
 end Genshi.Props.C13
